@@ -999,6 +999,38 @@ func (x *Exec) checkInvs(ls *LoopSpec, st *State, kind string, ord int, pos toke
 	}
 	env := x.specEnv(st, pos)
 	for k, inv := range ls.Invs {
+		if q, isQ := inv.E.(*SQuant); isQ && q.Forall && kind == "inv-keep" && len(ls.SplitVars) > 0 {
+			// skolemise the bound variables and split on the declared cases (a proof-search tactic, no assumption)
+			bound := map[string]Sc{}
+			for _, v := range q.Vars {
+				srt := specSort(v[1])
+				bound[v[0]] = Sc{x.c.fresh("sk."+v[0], srt), srt}
+			}
+			env.bound = bound
+			goal := env.evalBool(q.Body)
+			var cases []string
+			ok := true
+			func() {
+				defer func() {
+					if r := recover(); r != nil {
+						if _, isSF := r.(specFailure); isSF {
+							ok = false
+							return
+						}
+						panic(r)
+					}
+				}()
+				for _, sv := range ls.SplitVars {
+					cases = append(cases, env.evalBool(sv.E))
+				}
+			}()
+			env.bound = nil
+			if ok {
+				o := x.c.oblige(kind, fmt.Sprintf(":L%d#%d%s", ord, k+1, x.pathTag), st.pc, goal, pos, inv.Text)
+				o.Split = cases
+				continue
+			}
+		}
 		g := env.evalBool(inv.E)
 		parts := splitConj(g)
 		for pi, part := range parts {
@@ -1223,12 +1255,23 @@ func (x *Exec) execRange(n *ast.RangeStmt, st *State, label string) *State {
 		end = x.bodyAsserts(n.Body.Rbrace, end)
 	}
 	x.frames = x.frames[:len(x.frames)-1]
-	back := x.merge(append([]*State{end}, fr.conts...))
-	if back != nil {
+	// each path back to the loop head is checked on its own (smaller queries)
+	var paths []*State
+	for _, p := range append([]*State{end}, fr.conts...) {
+		if p != nil && p.pc != tFalse {
+			paths = append(paths, p)
+		}
+	}
+	for pi, back := range paths {
 		// Go semantics: the hidden counter advances; assignments to the key
 		// variable inside the body do not affect iteration (none occur here).
 		back.vars[idxObj] = scInt(tAdd(i, "1"))
+		if len(paths) > 1 {
+			x.pathTag = fmt.Sprintf("@p%d", pi+1)
+		}
+		x.reach(back, n.Body.Rbrace, fmt.Sprintf("back edge of loop %d", ord))
 		x.checkInvsRange(ls, back, "inv-keep", ord, n.Body.Lbrace, idxObj, valObj, elem, count)
+		x.pathTag = ""
 	}
 	// at exit the key variable keeps its last value in Go; after the loop it is
 	// out of scope (declared by :=), so the value is irrelevant.
